@@ -112,34 +112,40 @@ def renumberFrom (idx : Nat) : Nat → List Node → List Node
 
 def arrayRemove (ns : List Node) (idx : Nat) : List Node := renumberFrom idx 0 (ns.eraseIdx idx)
 
+/-- tail of `InstMgr::Append`: raise `maxFileId` if needed, allocate the node, append to `master`, enter it
+into `sortedMaster` under the instance's (final) file id `k` -/
+def pushNode (s : State) (h : Nat) (st : St) (k : Int) : State :=
+  let s4 := if k > s.maxFileId then { s with maxFileId := k } else s
+  let nd : Node := { nid := s4.nextNid, inst := h, state := st, arrayIndex := -1 }
+  let s5 := arrayAppend { s4 with nextNid := s4.nextNid + 1 } nd
+  { s5 with sorted := mapSet s5.sorted k nd.nid }
+
+/-- `se->StepFileId( NextFileId() )` -/
+def renumber (s : State) (h : Nat) : State × Int :=
+  let (s', v) := nextFileId s
+  (setId s' h v, v)
+
+/-- `InstMgr::Append` from `mn = FindFileId( se->StepFileId() )` on; `id1` is the instance's id at that point -/
+def appendFind (s1 : State) (id1 : Int) (h : Nat) (st : St) : State × R :=
+  match findFileId s1 id1 with
+  | .dangling => (s1, .crash)
+  | .node n =>
+    if n.inst = h then (s1, .null)       -- the instance is already in the list
+    else
+      let r := renumber s1 h              -- otherwise assign a new file id
+      (pushNode r.1 h st r.2, .node r.1.nodes.length r.2)
+  | .none => (pushNode s1 h st id1, .node s1.nodes.length id1)
+
 /-- `InstMgr::Append` -/
 def append (s : State) (h : Nat) (st : St) : State × R :=
   match s.heap h with
   | Option.none => (s, .skipped)
   | some i0 =>
     -- if( se->StepFileId() == 0 ) se->StepFileId( NextFileId() );
-    let (s1, id1) :=
-      if i0.fileId = unassignedFileId then
-        let (s', v) := nextFileId s
-        (setId s' h v, v)
-      else (s, i0.fileId)
-    -- mn = FindFileId( se->StepFileId() );
-    match findFileId s1 id1 with
-    | .dangling => (s1, .crash)
-    | .node n =>
-      if n.inst = h then (s1, .null)
-      else
-        let (s2, v) := nextFileId s1
-        let s3 := setId s2 h v
-        let s4 := if v > s3.maxFileId then { s3 with maxFileId := v } else s3
-        let nd : Node := { nid := s4.nextNid, inst := h, state := st, arrayIndex := -1 }
-        let s5 := arrayAppend { s4 with nextNid := s4.nextNid + 1 } nd
-        ({ s5 with sorted := mapSet s5.sorted v nd.nid }, .node s4.nodes.length v)
-    | .none =>
-      let s4 := if id1 > s1.maxFileId then { s1 with maxFileId := id1 } else s1
-      let nd : Node := { nid := s4.nextNid, inst := h, state := st, arrayIndex := -1 }
-      let s5 := arrayAppend { s4 with nextNid := s4.nextNid + 1 } nd
-      ({ s5 with sorted := mapSet s5.sorted id1 nd.nid }, .node s4.nodes.length id1)
+    if i0.fileId = unassignedFileId then
+      let r := renumber s h
+      appendFind r.1 r.2 h st
+    else appendFind s i0.fileId h st
 
 /-- `InstMgr::Delete( MgrNode * )` on a node known by identity -/
 def deleteNodeCore (s : State) (n : Node) : State × R :=
